@@ -388,6 +388,37 @@ func (w *World) oracleC03(m *simkube.Mutation, ip string, oldF, newF *FipInfo, p
 				return
 			}
 		}
+		if id.App.Kind == "dp" && id.App.Pool == "" && id.App.effPolicy() == "immutable" && newF.Key == id.App.poolPrefix() {
+			// "for deployments: while the app holds no more IPs than replicas": an unbound pod's IP is kept in reserve only
+			// if the app then holds at most as many IPs as it has replicas (the larger of API truth and lister view)
+			n, r := 0, w.replicasNow(id.App)
+			// galaxy reads the replica count once in the operation: any value in force since the operation (the task that
+			// does the update; for an unbind that is the goroutine handling the event) started counts
+			start := m.By.Born
+			if tm, ok := m.By.Data.(*taskMeta); ok && tm != nil && tm.start < start {
+				start = tm.start
+			}
+			if hr, _ := maxSizeSince(w.M.replicaHist[id.App], start); hr > r {
+				r = hr
+			}
+			if vh := w.M.replicaViewHist[id.App]; len(vh) == 0 || vh[0].step > start {
+				r = 1 << 30 // what the lister showed when the operation started is not on record: not judged
+			} else if hr, _ := maxSizeSince(vh, start); hr > r {
+				r = hr
+			}
+			// ... and counts the app's IPs once, under the deployment lock; an IP that entered the prefix after the
+			// operation started (Bind allocates without that lock) may have been missed and is not counted here
+			for _, x := range sortedKeys(w.M.allocs) {
+				if al := w.M.allocs[x]; strings.HasPrefix(al.Key, id.App.poolPrefix()) && (al.Step < start || x == ip) {
+					n++
+				}
+			}
+			if n > r {
+				w.fail("C03.surplus-ip-reserved", "surplus-ip-reserved",
+					"FloatingIP %s of deployment %s/%s kept in reserve by %s although the app now holds %d IPs for %d replicas", ip, id.App.NS, id.App.Name, m.By.Name, n, r)
+				return
+			}
+		}
 		if !prev.PodGoneSince && !w.M.adminRel[ip+"|"+oldF.Key] {
 			w.fail("C03.reserved-while-pod-lives", "reserved-while-pod-lives",
 				"FloatingIP %s taken from pod key %q (pod neither deleted nor finished since step %d) to %q by %s", ip, oldF.Key, prev.Step, newF.Key, m.By.Name)
